@@ -311,7 +311,7 @@ pub fn main(tier: Tier, seed: u64) -> i32 {
     rep.set("frequency", json!({"tapes_per_input_value": ntapes, "configurations": fcfgs.len(), "deltas_compared": delta_count}));
 
     // canary configuration: 128 input wires, tape-derived canary
-    let canary_tapes: u64 = if tier.is_thorough() { 64 } else { 8 };
+    let canary_tapes: u64 = if tier.is_thorough() { 64 } else { 24 };
     let mut ccfgs: Vec<(usize, usize, usize, u64)> = vec![];
     for (n, h, p_eval) in [(2usize, 0usize, 1usize), (2, 1, 1), (3, 1, 0)] {
         if n == 3 && !tier.is_thorough() {
@@ -360,6 +360,26 @@ pub fn main(tier: Tier, seed: u64) -> i32 {
             if !share_vectors.insert(v) {
                 rep.violation("mask_vector_repeated", "two executions (or parties) used the same 128-bit own mask vector".to_string(), json!({"kind":"mpc_case","case":case}));
             }
+        }
+    }
+    // every one of the 128 own mask shares must take both values over the tapes of its configuration
+    // (with >= 24 tapes a good wire is constant with probability 2^-23; three or more constant wires
+    // cannot happen by chance)
+    let mut by_cfg: std::collections::HashMap<(usize, usize), Vec<Vec<bool>>> = Default::default();
+    for ((n, h, _, _), (_, ok, os, _)) in ccfgs.iter().zip(cres.iter()) {
+        if ok.is_ok()
+            && let Ok(os) = os
+        {
+            by_cfg.entry((*n, *h)).or_default().push(os.iter().map(|x| x.2).collect());
+        }
+    }
+    for ((n, h), vs) in &by_cfg {
+        if vs.len() < 20 {
+            continue;
+        }
+        let constant: Vec<usize> = (0..128).filter(|w| vs.iter().all(|v| v[*w] == vs[0][*w])).collect();
+        if constant.len() >= 3 {
+            rep.violation("own_share_constant_positions", format!("n={n} honest party {h}: own mask shares of {} of 128 input wires are constant over {} tapes (wires {:?}...)", constant.len(), vs.len(), &constant[..constant.len().min(8)]), json!({"kind":"c06_canary","n":n,"party":h}));
         }
     }
     rep.set("canary", json!({"runs": ccfgs.len(), "distinct_mask_vectors": share_vectors.len()}));
